@@ -443,6 +443,29 @@ func runEnforce(c enforceCase) harness.Result {
 			return harness.Fail("frame %x refused with ErrInvalidCRC but a value %v was returned", frame, v)
 		}
 	}
+	// the receive buffer is the caller's and is reused (a client reads every reply into the same array): the frame with the CORRECT
+	// trailer is parsed from a buffer, then the case's frame is written over it in place and parsed from the same buffer - the verdict
+	// must be the one above
+	{
+		parse := packet.ParseRTUResponseWithCRC
+		if c.Request {
+			parse = func(b []byte) (packet.Response, error) {
+				q, err := packet.ParseRTURequestWithCRC(b)
+				if q == nil {
+					return nil, err
+				}
+				return q, err
+			}
+		}
+		buf := append(append([]byte(nil), c.Body...), byte(ref), byte(ref>>8))
+		_, _ = parse(buf)
+		copy(buf, frame)
+		vb, errb := parse(buf)
+		if !sameParse(vb, errb, v, err) && !(cat.IsNilValue(vb) && cat.IsNilValue(v) && errors.Is(errb, packet.ErrInvalidCRC) == errors.Is(err, packet.ErrInvalidCRC) && (errb == nil) == (err == nil)) {
+			return harness.Fail("frame %x parsed from a fresh slice gives (%v, %v); parsed from a buffer that held the frame with the correct trailer %04x just before (and was parsed then) it gives (%v, %v)", frame, v, err, ref, vb, errb)
+		}
+		labels = append(labels, "reused-buffer")
+	}
 	return harness.Result{NonTrivial: len(c.Body) >= 2, Labels: labels}
 }
 
